@@ -36,7 +36,7 @@ class RtWorld:
         self.net = simlan.SimNet(population, self.rec)
         injection.configure()
         settings.using({'sleep_time': tick, 'single_light_discover': True, 'use_fakes': False,
-                        'light_gc_time': 300, 'default_num_lights': None}).configure()
+                        'light_gc_time': 300, 'default_num_lights': None, 'manifest_file_name': None}).configure()
         root = logging.getLogger()
         for handler in list(root.handlers):
             root.removeHandler(handler)
